@@ -40,6 +40,10 @@ theorem PI.setActor {ex' : Option Nat} (h : PI ex fl T C s) (a : Nat) (g : Actor
       rcases actor_setActor_cases hid hal hx with ⟨_, h1⟩ | ⟨rfl, x, h1, rfl⟩
       · exact h.ctxLt b x' i h1 hi
       · rw [hctx] at hi; exact h.ctxLt b x i h1 hi
+    ctxReg := fun b x' i hx hi => by
+      rcases actor_setActor_cases hid hal hx with ⟨_, h1⟩ | ⟨rfl, x, h1, rfl⟩
+      · exact h.ctxReg b x' i h1 hi
+      · rw [hctx] at hi; exact h.ctxReg b x i h1 hi
     ctxInj := fun b c x' y' i hx hy hxi hyi => by
       rcases actor_setActor_cases hid hal hx with ⟨_, h1⟩ | ⟨rfl, x, h1, rfl⟩ <;>
       rcases actor_setActor_cases hid hal hy with ⟨_, h2⟩ | ⟨rfl, y, h2, rfl⟩
@@ -81,6 +85,7 @@ theorem PI.killActor (h : PI ex fl T C s) (a : Nat) (g : Actor → Actor)
     · rw [actor_setActor_ne s g hid hb] at hx; exact ⟨hb, hx⟩
   exact { h with
     ctxLt := fun b x' i hx hi => h.ctxLt b x' i (key b x' hx).2 hi
+    ctxReg := fun b x' i hx hi => h.ctxReg b x' i (key b x' hx).2 hi
     ctxInj := fun b c x' y' i hx hy hxi hyi => h.ctxInj b c x' y' i (key b x' hx).2 (key c y' hy).2 hxi hyi
     pend := fun b x' st hx hb hpd => h.pend b x' st (key b x' hx).2 hb hpd
     ord := fun hp => (h.ord hp).cast rfl (fun _ => rfl) rfl }
@@ -98,6 +103,10 @@ theorem PI.addActor (h : PI ex fl T C s) (a : Nat) (ha : s.actor a = none) :
     ctxLt := fun b x' i hx hi => by
       rcases key b x' hx with h1 | ⟨h1, _⟩
       · exact h.ctxLt b x' i h1 hi
+      · rw [h1] at hi; cases hi
+    ctxReg := fun b x' i hx hi => by
+      rcases key b x' hx with h1 | ⟨h1, _⟩
+      · exact h.ctxReg b x' i h1 hi
       · rw [h1] at hi; cases hi
     ctxInj := fun b c x' y' i hx hy hxi hyi => by
       rcases key b x' hx with h1 | ⟨h1, _⟩
@@ -176,10 +185,18 @@ theorem PI.ensureCtx (h : PI ex fl T C s) (a : Nat) (x : Actor) (hx : s.actor a 
           rw [hth]; split
           · exact qc_mkTh _ _
           · exact h.qc j
-        bufCache := fun j => by
+        reg := fun j => by
+          rw [hth]; split
+          · intro hc; exact absurd (chain_mkTh _ _) hc
+          · intro hc; exact List.mem_append_left _ (h.reg j hc)
+        bufCache := fun j hjr => by
           rw [hth]; split
           · intro hb; exact absurd rfl hb
-          · exact h.bufCache j
+          · rename_i hne
+            refine h.bufCache j ?_
+            rcases List.mem_append.mp hjr with h1 | h1
+            · exact h1
+            · simp at h1; exact absurd h1 hne
         cacheReg := fun i hi => List.mem_append_left _ (h.cacheReg i hi)
         fresh := fun hf => by cases hf
         ctxLt := fun b x' i hb hi => by
@@ -188,6 +205,15 @@ theorem PI.ensureCtx (h : PI ex fl T C s) (a : Nat) (x : Actor) (hx : s.actor a 
           rcases hact b x' hb with ⟨_, h2⟩ | ⟨_, rfl⟩
           · have := h.ctxLt b x' i h2 hi; simp; omega
           · cases hi; simp
+        ctxReg := fun b x' i hb hi => by
+          rcases hact b x' hb with ⟨_, h2⟩ | ⟨_, rfl⟩
+          · obtain ⟨r1, r2⟩ := h.ctxReg b x' i h2 hi
+            have := h.ctxLt b x' i h2 hi
+            refine ⟨List.mem_append_left _ r1, ?_⟩
+            rw [hth, if_neg (by omega)]; exact r2
+          · cases hi
+            refine ⟨List.mem_append_right _ (List.mem_singleton.mpr rfl), ?_⟩
+            rw [hth, if_pos rfl]; rfl
         ctxInj := fun b c x' y' i hb hcc hxi hyi => by
           rcases hact b x' hb with ⟨_, h1⟩ | ⟨rfl, rfl⟩ <;> rcases hact c y' hcc with ⟨_, h2⟩ | ⟨rfl, rfl⟩
           · exact h.ctxInj b c x' y' i h1 h2 hxi hyi
@@ -245,7 +271,8 @@ theorem PI.enq {a : Nat} (h : PI (some a) fl T C s) (x : Actor) (hx : s.actor a 
     (hctx : x.ctx = some ci) (st : Stmt) (hts : st.ts ≤ s.now) (hsz : 0 < st.size) (henq : st.enqAt = s.now)
     (hfit : ∀ r ∈ chain (s.th ci), r.ts ≤ st.ts) (f : Th → Th)
     (hf : ∀ t, t = s.th ci → (f t).buf = t.buf ∧ (f t).qStmts = t.qStmts ++ [st] ∧ (f t).accepted = t.accepted ++ [st] ∧
-      (f t).q.wpos = t.q.wpos + st.size ∧ (f t).q.wHist.headD 0 = t.q.wpos + st.size ∧ (f t).q.rpos = t.q.rpos) :
+      (f t).q.wpos = t.q.wpos + st.size ∧ (f t).q.wHist.headD 0 = t.q.wpos + st.size ∧ (f t).q.rpos = t.q.rpos ∧
+      (f t).valid = t.valid) :
     PI (some a) fl T C (s.setTh ci f) := by
   have hf := hf _ rfl
   have hchain : chain (f (s.th ci)) = chain (s.th ci) ++ [st] := by
@@ -284,17 +311,27 @@ theorem PI.enq {a : Nat} (h : PI (some a) fl T C s) (x : Actor) (hx : s.actor a 
       · rw [h1]; exact h.qc j
       · rw [h1]
         have q0 := h.qc j
-        obtain ⟨_, f2, _, f4, f5, f6⟩ := hf
+        obtain ⟨_, f2, _, f4, f5, f6, _⟩ := hf
         refine ⟨by rw [f4, f5], ?_, ?_⟩
         · rw [f5, f6, f2, List.map_append, List.sum_append, q0.wpos, q0.sum]; simp; omega
         · rw [f2]; intro r hr
           rcases List.mem_append.mp hr with h2 | h2
           · exact q0.pos r h2
           · rw [List.mem_singleton.mp h2]; exact hsz
-    bufCache := fun j => by
+    reg := fun j => by
       rcases hcases j with h1 | ⟨rfl, h1⟩
-      · rw [h1]; exact h.bufCache j
-      · rw [h1, hf.1]; exact h.bufCache j
+      · rw [h1]; exact h.reg j
+      · intro _; exact (h.ctxReg a x j hx hctx).1
+    bufCache := fun j hjr => by
+      rcases hcases j with h1 | ⟨rfl, h1⟩
+      · rw [h1]; exact h.bufCache j hjr
+      · rw [h1, hf.1]; exact h.bufCache j hjr
+    ctxReg := fun b y i hy hi => by
+      obtain ⟨r1, r2⟩ := h.ctxReg b y i hy hi
+      refine ⟨r1, ?_⟩
+      rcases hcases i with h1 | ⟨rfl, h1⟩
+      · rw [h1]; exact r2
+      · rw [h1, hf.2.2.2.2.2.2]; exact r2
     ctxLt := fun b y i hy hi => by rw [length_setTh]; exact h.ctxLt b y i hy hi
     pend := fun b y r hy hb hpd => by
       obtain ⟨p1, p2, p3⟩ := h.pend b y r hy hb hpd
@@ -342,7 +379,7 @@ theorem PI.tryEnq {a : Nat} (h : PI (some a) fl T C s) (x : Actor) (hx : s.actor
     apply h.enq x hx ci hctx { st with enqAt := s.now } hts hsz rfl hfit
     intro t ht
     have f1 := qFinishCommit_fields s.cfg (qPrepareWrite s.cfg (s.th ci).q st.size).1 st.size
-    refine ⟨rfl, rfl, rfl, ?_, ?_, ?_⟩
+    refine ⟨rfl, rfl, rfl, ?_, ?_, ?_, rfl⟩
     · show (qFinishCommit _ _ _).wpos = _; rw [f1.1, f2.1, ht]
     · show (qFinishCommit _ _ _).wHist.headD 0 = _; rw [f1.2.1, f2.1, ht]; rfl
     · show (qFinishCommit _ _ _).rpos = _; rw [f1.2.2, f2.2.2, ht]
@@ -428,11 +465,11 @@ theorem PI.enqFlow (h : PI none fl T C s) (a : Nat) (x : Actor) (hx : s.actor a 
     simp only [Bool.false_eq_true, if_false]
     split
     · split
-      · exact hnone _ (hQb _ _ hQ2 (fun t => ⟨rfl, rfl, rfl, rfl, rfl, rfl⟩))
-      · exact hretry _ (hQb _ _ hQ2 (fun t => ⟨rfl, rfl, rfl, rfl, rfl, rfl⟩))
+      · exact hnone _ (hQb _ _ hQ2 (fun t => ⟨rfl, rfl, rfl, rfl, rfl, rfl, rfl⟩))
+      · exact hretry _ (hQb _ _ hQ2 (fun t => ⟨rfl, rfl, rfl, rfl, rfl, rfl, rfl⟩))
     · apply hretry
       split
-      · exact hQb _ _ hQ2 (fun t => ⟨rfl, rfl, rfl, rfl, rfl, rfl⟩)
+      · exact hQb _ _ hQ2 (fun t => ⟨rfl, rfl, rfl, rfl, rfl, rfl, rfl⟩)
       · exact hQ2
 
 theorem stmtSize_pos (c : Cfg) (hc : 0 < c.hdr) (k : Kind) (id len : Nat) (dyn : Bool) (gid : Nat) :
@@ -504,6 +541,50 @@ theorem core_reapSinks (s : BSt) (l : List Nat) : core (reapSinks s l) = core s 
     rw [List.foldl_cons, ih]
     split <;> rfl
 
+/-- a thread exits: its context is marked invalid (no live actor refers to it any more) -/
+theorem PI.invalidate (h : PI ex fl T C s) (i : Nat) (hno : ∀ b y, s.actor b = some y → y.ctx ≠ some i) :
+    PI ex fl T C (s.setTh i (fun t => { t with valid := false })) := by
+  have hcases : ∀ j, (s.setTh i (fun t => { t with valid := false })).th j = s.th j ∨
+      (j = i ∧ (s.setTh i (fun t => { t with valid := false })).th j = { s.th i with valid := false }) := by
+    intro j; rcases th_setTh_cases s i j (fun t => { t with valid := false }) with h1 | ⟨h1, _, h2⟩
+    · exact Or.inl h1
+    · exact Or.inr ⟨h1, h2⟩
+  have hch : ∀ j, chain ((s.setTh i (fun t => { t with valid := false })).th j) = chain (s.th j) := by
+    intro j; rcases hcases j with h1 | ⟨rfl, h1⟩ <;> rw [h1] <;> rfl
+  have hbuf : ∀ j, ((s.setTh i (fun t => { t with valid := false })).th j).buf = (s.th j).buf := by
+    intro j; rcases hcases j with h1 | ⟨rfl, h1⟩ <;> rw [h1]
+  have hq : ∀ j, ((s.setTh i (fun t => { t with valid := false })).th j).qStmts = (s.th j).qStmts := by
+    intro j; rcases hcases j with h1 | ⟨rfl, h1⟩ <;> rw [h1]
+  have hacc : ∀ j, ((s.setTh i (fun t => { t with valid := false })).th j).accepted = (s.th j).accepted := by
+    intro j; rcases hcases j with h1 | ⟨rfl, h1⟩ <;> rw [h1]
+  exact { h with
+    sorted := fun j => by rw [hch]; exact h.sorted j
+    leNow := fun j => by rw [hch]; exact h.leNow j
+    qc := fun j => by
+      rcases hcases j with h1 | ⟨rfl, h1⟩
+      · rw [h1]; exact h.qc j
+      · rw [h1]; exact ⟨(h.qc j).wpos, (h.qc j).sum, (h.qc j).pos⟩
+    reg := fun j => by rw [hch]; exact h.reg j
+    bufCache := fun j => by rw [hbuf]; exact h.bufCache j
+    ctxLt := fun b y j hy hj => by rw [length_setTh]; exact h.ctxLt b y j hy hj
+    ctxReg := fun b y j hy hj => by
+      obtain ⟨r1, r2⟩ := h.ctxReg b y j hy hj
+      refine ⟨r1, ?_⟩
+      rcases hcases j with h1 | ⟨rfl, _⟩
+      · rw [h1]; exact r2
+      · exact absurd hj (hno b y hy)
+    pend := fun b y r hy hb hpd => by
+      obtain ⟨p1, p2, p3⟩ := h.pend b y r hy hb hpd
+      exact ⟨p1, p2, fun j hj => by rw [hch]; exact p3 j hj⟩
+    ord := fun hp => by
+      have o := h.ord (fun j r hr => hp j r (by rw [hacc]; exact hr))
+      exact {
+        popSorted := o.popSorted
+        above := fun p hpp j hj => by rw [hch]; exact o.above p hpp j hj
+        popFloor := o.popFloor
+        bufFloor := fun j => by rw [hbuf]; exact o.bufFloor j
+        late := fun j hj hT => by rw [hbuf, hq]; exact o.late j hj hT } }
+
 theorem PI.applyFront (h : PI none fl T C s) (f : FOp) : PI none fl T C (applyFront s f).1 := by
   cases f with
   | tick dt => exact h.tick dt
@@ -522,7 +603,21 @@ theorem PI.applyFront (h : PI none fl T C s) (f : FOp) : PI none fl T C (applyFr
     · exact h
     · have hk := h.killActor a (fun x => { x with alive := false }) (fun _ => rfl) (fun _ => rfl)
       split
-      · exact (hk.setTh_frame _ _ ⟨rfl, rfl, rfl, rfl, rfl, rfl⟩).frame rfl
+      · rename_i i hci
+        refine PI.frame (PI.invalidate hk i ?_) rfl
+        intro b y hy hyi
+        -- a live actor other than `a` with the same context: excluded by `ctxInj`
+        have hne : b ≠ a := by
+          intro e; subst e
+          have := actor_setActor_kill s b (fun x => { x with alive := false }) (fun _ => rfl)
+          rw [this] at hy; cases hy
+        have := actor_setActor_ne s (fun x => { x with alive := false }) (fun _ => rfl) hne
+        rw [this] at hy
+        cases hxa : s.actor a with
+        | none => rw [hxa] at hci; cases hci
+        | some xa =>
+          rw [hxa] at hci
+          exact hne (h.ctxInj b a y xa i hy hxa hyi (by simpa using hci))
       · exact hk
   | resume a =>
     simp only [Backend.applyFront]
